@@ -117,6 +117,22 @@ theorem stake_int64Of_is_source (x : Int) : Stake.int64Of x = Funcs.wrap64 x := 
   simp only
   split <;> (repeat' split) <;> omega
 
+/-- `Amount.ToCoinWithBase` of the ledger model is the source's `NewCoinFromInt` of `Int64()` of the
+    value: the wrap-around comes first, then the multiplication by 10^decimals -/
+theorem toCoinWithBase_is_source (value : Int) (decimals : Nat) :
+    Ledger.toCoinWithBase value decimals = Funcs.newCoinFromInt (Funcs.wrap64 value) decimals := by
+  unfold Ledger.toCoinWithBase Funcs.newCoinFromInt Funcs.currencyBase
+  rw [ledger_wrap64_is_source]
+  simp
+
+/-- the stake model's whole-token conversion is the same function at 18 decimals -/
+theorem stake_coinOf_is_source (a : Int) :
+    Stake.coinOf a = Funcs.newCoinFromInt (Funcs.wrap64 a) 18 := by
+  unfold Stake.coinOf Funcs.newCoinFromInt Funcs.currencyBase Stake.oltBase
+  rw [stake_int64Of_is_source]
+  have h : (10 : Int) ^ Int.toNat 18 = 1000000000000000000 := by decide
+  simp only [h]
+
 example : Funcs.coinMinus 5 false 7 = (-2, true) := by decide
 example : Funcs.coinMinus 5 false (-7) = (12, false) := by decide   -- a negative coin adds
 example : Funcs.wrap64 9223372036854775808 = -9223372036854775808 := by decide
